@@ -265,6 +265,13 @@ def ob_relay_set(run, oid):
     main = [b for b in fam if b.is_closure and b.defpath.endswith("broadcast_if_relay::{closure#0}")]
     for b in main:
         snd = [c for c in b.calls() if c.callee.endswith("Network::send_to_many")]
+        # ... and nobody else: the recipient list passes through exactly that one narrowing step (a second filter - by stake, by liveness, .. -
+        # withholds shreds from validators that still have to reconstruct and vote)
+        for c in snd:
+            rt = b.operand_term(c.args[2]) if len(c.args) > 2 else None
+            narrowing = [x[1].rsplit("::", 1)[-1] for x in (mir.walk(rt) if rt is not None else []) if isinstance(x, tuple) and x and x[0] == "call"
+                         and x[1].rsplit("::", 1)[-1] in ("filter", "filter_map", "take", "skip", "take_while", "skip_while", "step_by", "retain", "dedup", "truncate")]
+            o.check(narrowing in (["filter"], ["filter_map"]), "broadcast_if_relay|single-filter", "the recipients are all validators minus what ONE filter excludes (the relay and the leader)", c.span, {"narrowing_steps": narrowing})
         for c in snd:
             g = [a for a in G.guard_atoms(b, c.bb, prog) if a[0] == "eq" and a[2] is True and any(K.mentions_call(x, "own_id") for x in a[1]) and any(K.mentions_call(x, "sample_relay") for x in a[1])]
             o.check(bool(g), "broadcast_if_relay|only-relay", "only the sampled relay broadcasts", c.span, {"guards": K.show_atoms(prog, b, c.bb)[:4]})
